@@ -301,6 +301,27 @@ func c04NearMisses(thorough bool) []strEnum {
 		}
 		return s + ")"
 	}})
+	// constructs the grammar actions reject (after the tokens were accepted), in every syntactic
+	// position and before every kind of follower: the parser keeps going after recording the error
+	badCores := []string{`$ like_regex "("`, `$ like_regex "a" flag "x"`, `$ like_regex "a" flag "z"`, `$ like_regex "[" flag "i"`, `$ like_regex "a{2,1}"`, `$ like_regex "\\"`,
+		`@ like_regex ")" flag "q"`, `$.a like_regex "(?<n"`, `$ like_regex "(" flag "iq"`}
+	coreWraps := []string{"%s", "(%s)", "!(%s)", "(%s) is unknown", "exists($ ? (%s))", "$ ? (%s)", "$[*] ? (%s)", "(%s) && (1 == 1)", "(1 == 1) || (%s)", "$[($ ? (%s)).a]"}
+	folls := []string{"", "[*]", "[0]", ".*", ".**", ".a", ".type()", " ? (@ == 1)", ".decimal(1,2,3)", " && $", "[last]", ")", "]", " is unknown", " + 1", " == 1"}
+	var broken []string
+	for _, core := range badCores {
+		for _, w := range coreWraps {
+			for _, f := range folls {
+				broken = append(broken, strings.Replace(w, "%s", core, 1)+f, "("+strings.Replace(w, "%s", core, 1)+")"+f)
+			}
+		}
+	}
+	for _, d := range []string{"$.a.decimal(1,2,3)", "$.decimal(1,2,3,4)", "$.a.decimal(1,)", "$.a.decimal(,1)", "$.a.decimal(1 2)", "$.a.decimal(1.5)", "$.a.decimal($x)", "$.a.time(1,2)", "$.a.time(-1)",
+		"$.a.date(1)", "$.a.datetime(1)", `$.a.time("x")`, "$.a.abs(1)", "$.a.type(1)", "$.**{1,2}", "$.**{-1}", "$.**{1 to}", "$.**{to 1}", "$.**{1.5}", "$.**{$x}"} {
+		for _, f := range folls {
+			broken = append(broken, d+f, "("+d+")"+f, "$ ? (exists("+d+f+"))", "strict "+d+f)
+		}
+	}
+	out = append(out, listEnum("action-errors-with-followers", broken))
 	// numeric literals at and beyond the int64 / float64 limits, with signs and parentheses
 	lits := []string{"9223372036854775807", "9223372036854775808", "9223372036854775809", "18446744073709551616", "99999999999999999999999999",
 		"0x7FFFFFFFFFFFFFFF", "0x8000000000000000", "0xFFFFFFFFFFFFFFFFFF", "0o777777777777777777777", "0o1000000000000000000000", "0b1" + strings.Repeat("0", 63), "0b1" + strings.Repeat("0", 64),
